@@ -618,6 +618,17 @@ class Item:
                 break
         return self
 
+    def eta_expand_constructors(self):
+        """R10, generic: `.map(Enum::Variant)` (a tuple-variant constructor used as a function value, which Verus does not support)
+        becomes `.map(|v| -> (r: Enum) ensures r == Enum::Variant(v) { Enum::Variant(v) })`: the same function, written as a closure
+        with the contract that IS its definition."""
+        def repl(m):
+            return ".map(|v| -> (r: %s) ensures r == %s::%s(v) { %s::%s(v) })" % (m.group(1), m.group(1), m.group(2), m.group(1), m.group(2))
+        self.text, n = re.subn(r"\.map\(([A-Z][A-Za-z0-9_]*)::([A-Z][A-Za-z0-9_]*)\)", repl, self.text)
+        if n:
+            self.rewrites.append({"rule": "R10", "what": "%d constructor(s) used as function values eta-expanded into closures" % n})
+        return self
+
     def insert_after(self, anchor, text, why):
         """Insert proof text (ghost code only) after the first occurrence of an anchor statement."""
         n = self.text.count(anchor)
@@ -850,10 +861,14 @@ class Extractor:
 
         lines = []
         n_opaque = 0
+        seen_names = set()
         for v in variants:
             v = re.sub(r"//[^\n]*", "", v).strip()
             m = re.match(r"([A-Za-z_][A-Za-z0-9_]*)\s*(.*)$", v, re.S)
             vname, rest = m.group(1), m.group(2).strip()
+            if vname in seen_names:
+                continue   # cfg-gated alternative of the same variant: the first (default-feature) one is kept
+            seen_names.add(vname)
             if not rest:
                 lines.append("    %s," % vname)
             elif rest.startswith("("):
